@@ -106,3 +106,14 @@ Proof.
     rtb ([FStr n_fsync; FRaw (str_enc h)]). fixid. reflexivity.
   - rtb ([FStr name; FRaw payload]). fixid. reflexivity.
 Qed.
+
+(* INIT and VERSION: codec B's own decoders give back the packet codec A (and codec B) encoded, every extension pair in place *)
+Theorem decB_initversion_enc : forall p, wf_packet p = true ->
+  match p with PInit _ _ | PVersion _ _ => True | _ => False end ->
+  decB_initversion (u8_enc (ptype p) ++ render (fieldsA p)) = Ok p.
+Proof.
+  intros p Hwf Hk. destruct p; try destruct Hk; split_wf Hwf; unfold decB_initversion; cbn [ptype fieldsA];
+    rewrite u8_dec_safe_enc; cbn [bind]; known_ty.
+  - rt ([FU32 ver; FPairs exts]). reflexivity.
+  - rt ([FU32 ver; FPairs exts]). reflexivity.
+Qed.
